@@ -3,9 +3,9 @@
 from lib.coqterm import cbool, cbytes, clist, cN, copt, ccodepoints, hx, unhx
 
 ID = "C28"
-QUICK_N = 2600
+QUICK_N = 1500
 THOROUGH_N = 24000
-SHARD = 220
+SHARD = 130
 RULE = ("65% sessions with a real WebsocketLayer between two in-memory wsproto peers: 1-7 messages (text 60%/binary) in both "
         "directions built from a UTF-8 token dictionary (1-4 byte characters, emoji, combining marks), cut into 1-5 frames at "
         "arbitrary byte offsets (also inside a character), frames segmented into DataReceived pieces or coalesced, pings/pongs "
